@@ -348,10 +348,21 @@ func (st *c12State) caseConfig(i int64) {
 	}
 	intClass := "no-request"
 	injectAt := -1
+	injectAgain := [2]int{-1, -1}
+	enableAtInject := false
 	var it *z80.Interrupt
 	if r.Intn(2) == 0 {
 		it = c12Interrupt(r)
 		injectAt = r.Intn(12)
+		if r.Intn(2) == 0 {
+			// the same device interrupts again later on the same CPU
+			injectAgain[0] = injectAt + 1 + r.Intn(6)
+			injectAgain[1] = injectAgain[0] + 1 + r.Intn(6)
+			enableAtInject = true
+			if pre.IM < 0 || pre.IM > 2 || r.Bool() {
+				pre.IM = r.Intn(3)
+			}
+		}
 		tb := "type-out-of-range"
 		if it.Type == z80.NMIType {
 			tb = "NMI"
@@ -383,6 +394,9 @@ func (st *c12State) caseConfig(i int64) {
 	st.class(mclass)
 	st.class(iclass)
 	st.class(intClass)
+	if enableAtInject {
+		st.class("request-repeated-3x-with-IFF1-set")
+	}
 	if pre.IM < 0 || pre.IM > 2 {
 		st.class("IM-out-of-range")
 	}
@@ -392,8 +406,11 @@ func (st *c12State) caseConfig(i int64) {
 	func() {
 		defer func() { pan = recover() }()
 		for s := 0; s < nsteps; s++ {
-			if s == injectAt {
+			if s == injectAt || s == injectAgain[0] || s == injectAgain[1] {
 				cpu.Interrupt = it
+				if enableAtInject {
+					cpu.IFF1 = true
+				}
 			}
 			mem.budget = mem.count + 64
 			cpu.Step()
@@ -779,7 +796,7 @@ func runC12(c *Ctx) {
 	c.R.Set("worker_processes", nshards)
 	c.R.Set("exhaustive", false)
 	c.R.Set("exhaustive_over", "all 65536 two-byte openings (each with several random tails/states)")
-	c.R.Set("rule", "crash-isolated worker processes, every case a pure function of (seed, index): (a) all 65536 two-byte openings x random tails and states (PC at FFFC..FFFF in 1/4) as single Steps with the log monitor: no panic, <= 64 bus accesses, an 'invalid code' Step only consumes the bytes it fetched; (b) arbitrary byte programs (prefix storms, single-prefix fills, random) for 8..48 Steps on {64 KiB array, DumbMemory of length 0,1,2,255,256,4096,65535,65536 with the program cut off at its end, MapMemory} x {nil IO, DumbIO of length 0,1,128,256} x arbitrary States (IM in {-1,3,MaxInt,MinInt,256,2^32}) x Interrupt values of any Type with nil/empty/1..8 data bytes injected at a random Step, at PC=FFFF, and from inside memory callbacks; (c) Run on generated programs (interrupts never enabled, requests pending from the start or raised by callbacks, IM out of range, breakpoints): whenever a Step-driven twin executes a HALT opcode, Run must return within twice the twin's bus accesses. Logical watchdogs only; a child that dies is re-run in a mode that records the index before each case. Each case index is a distinct input; all are counted")
+	c.R.Set("rule", "crash-isolated worker processes, every case a pure function of (seed, index): (a) all 65536 two-byte openings x random tails and states (PC at FFFC..FFFF in 1/4) as single Steps with the log monitor: no panic, <= 64 bus accesses, an 'invalid code' Step only consumes the bytes it fetched; (b) arbitrary byte programs (prefix storms, single-prefix fills, random) for 8..48 Steps on {64 KiB array, DumbMemory of length 0,1,2,255,256,4096,65535,65536 with the program cut off at its end, MapMemory} x {nil IO, DumbIO of length 0,1,128,256} x arbitrary States (IM in {-1,3,MaxInt,MinInt,256,2^32}) x Interrupt values of any Type with nil/empty/1..8 data bytes injected at a random Step (in half of those cases three times on the same CPU with IFF1 forced on, so that several requests are really accepted), at PC=FFFF, and from inside memory callbacks; (c) Run on generated programs (interrupts never enabled, requests pending from the start or raised by callbacks, IM out of range, breakpoints): whenever a Step-driven twin executes a HALT opcode, Run must return within twice the twin's bus accesses. Logical watchdogs only; a child that dies is re-run in a mode that records the index before each case. Each case index is a distinct input; all are counted")
 	c.R.Assume("a nil map as MapMemory is the caller's error and is not exercised")
 	if total.Cases == 0 {
 		c.R.Inconclusive("no cases executed")
